@@ -263,10 +263,13 @@ void h_buffer_word(void) { Janet *argv = mk_args(); cfun_buffer_word(g_argc, arg
   __CPROVER_ensures((argc > (k) && !ITEM_NUM(argv, k) && !g_self[k] && g_mm < (size_t)g_bytes.len && (start) + (int64_t)(g_mm & 0x7FFFFFFF) == g_idx) ==> g_buf->data[g_idx] == g_bytes.bytes[g_mm]) \
   __CPROVER_ensures((argc > (k) && !ITEM_NUM(argv, k) && g_self[k] && g_mm < (size_t)(start) && (start) + (int64_t)(g_mm & 0x7FFFFFFF) == g_idx && (int64_t)(g_mm & 0x7FFFFFFF) == g_idx2) ==> g_buf->data[g_idx] == g_buf->data[g_idx2])
 int g_push_numbers;
+#ifndef LIB_PUSH_MAXARGC
+#define LIB_PUSH_MAXARGC LIB_MAXSLOT
+#endif
 #define PUSH_CONTRACT(fn) \
 static Janet fn##_c(int32_t argc, Janet *argv) \
 CF_PRE \
-__CPROVER_requires(argc <= LIB_MAXSLOT)        /* bound: the argument loop is unwound */ \
+__CPROVER_requires(argc <= LIB_PUSH_MAXARGC)        /* bound: the argument loop is unwound */ \
 CF_FRAME RET_ARG0 NEVER_FOREIGN_REALLOC PREFIX_KEPT \
 __CPROVER_ensures(WF_BUFFER(g_buf) && C2(argv) <= INT32_MAX && (int64_t)g_buf->count == C2(argv)) \
 ITEM_POST(argv, 1, (int64_t)g_oldcount) \
@@ -279,14 +282,26 @@ void h_buffer_chars(void) {
   g_push_numbers = 0;
   cfun_buffer_chars(g_argc, argv);
   REACH("buffer/push-string returns");
+#if LIB_PUSH_MAXARGC >= 3
   if (g_argc == 3 && g_self[1] && !g_self[2] && g_oldcount > 1 && g_bytes.len > 1) REACH("buffer/push-string returns after pushing the buffer itself and a string");
   if (g_argc == 3 && !g_self[1] && g_self[2] && g_buf->capacity != g_oldcap) REACH("buffer/push-string returns after pushing a string and the grown buffer itself");
+#else
+  if (g_argc == 2 && g_self[1] && g_oldcount > 1 && g_buf->capacity != g_oldcap) REACH("buffer/push-string returns after pushing the buffer onto itself with reallocation");
+  if (g_argc == 2 && g_self[1] && g_oldcount > 1 && g_buf->capacity == g_oldcap) REACH("buffer/push-string returns after pushing the buffer onto itself in place");
+  if (g_argc == 2 && !g_self[1] && g_bytes.len > 1) REACH("buffer/push-string returns after pushing a string");
+#endif
 }
 void h_buffer_push(void) {
   Janet *argv = mk_args();
   g_push_numbers = 1;
   cfun_buffer_push(g_argc, argv);
   REACH("buffer/push returns");
+#if LIB_PUSH_MAXARGC >= 3
   if (g_argc == 3 && IS_NUM(argv[1]) && !IS_NUM(argv[2]) && g_self[2] && g_oldcount > 1) REACH("buffer/push returns after pushing a byte and the buffer itself");
   if (g_argc == 3 && !IS_NUM(argv[1]) && !g_self[1] && IS_NUM(argv[2]) && g_buf->capacity != g_oldcap) REACH("buffer/push returns after pushing a string and a byte");
+#else
+  if (g_argc == 2 && IS_NUM(argv[1]) && g_buf->capacity != g_oldcap) REACH("buffer/push returns after pushing a byte with reallocation");
+  if (g_argc == 2 && !IS_NUM(argv[1]) && g_self[1] && g_oldcount > 1) REACH("buffer/push returns after pushing the buffer onto itself");
+  if (g_argc == 2 && !IS_NUM(argv[1]) && !g_self[1] && g_bytes.len > 1) REACH("buffer/push returns after pushing a string");
+#endif
 }
